@@ -309,6 +309,24 @@ def add_histories(rng, cases, meta):
     return hist
 
 
+def load_corpus(ctx, cases, meta, hist):
+    """past cases (corpus/C03/*.json: {"fresh": case lines, "history": ops of the reused object or null, "warm": n,
+    "subset": S, "alg", "entry", "note"}) are appended and go through the same comparison and oracles on every run;
+    the problem is rebuilt exactly from the hex doubles of the fresh case"""
+    d = ctx.verif / "corpus" / "C03"
+    names = []
+    for f in sorted(d.glob("*.json")) if d.exists() else []:
+        j = json.loads(f.read_text())
+        p, _ = g.problem_from_lines(j["fresh"])
+        p["family"] = "corpus"
+        cases.append(j["fresh"])
+        meta.append((p, j["subset"], j["alg"], j["entry"], True))
+        if j.get("history"):
+            hist[len(cases) - 1] = (j["history"], j.get("warm", 0), {"kind": j.get("kind", "same"), "minx": 0, "setalg": 0, "pre": 0})
+        names.append(f.name)
+    return names
+
+
 def run_impl(ctx, cases, hist, jobs=4):
     """the implementation's answers in the layout of the fresh case (`ok ok <answers to the case's queries>`) for every
     case; history cases run on the reused object.  Returns (impl, crashes, warm): warm[i] = [(query, got, fresh)],
@@ -476,9 +494,59 @@ def oracle(p, S, alg, entry, out, ref):
     return bad
 
 
+def exact_q_verdict(p, entry, out_impl, out_model, miss, ref, corr=None):
+    """some answers of implementation and model differ by more than the stream's ENTRYWISE comparator allows
+    (|a - b| <= 1e-9 (1 + |b|)).  A factorisation-based (generalised) inverse is accurate NORMWISE, not entrywise: the
+    first-order forward error of every entry of Q is eps * kappa * max|Q| with kappa = |N|_inf |Q|_inf (N = A'PA and its
+    regularised inverse Q, both EXACT, gen_ls.reference; kappa(N) = kappa(A)^2 is the square the cofactors scale with), so
+    an entry that is small against max|Q| may legitimately miss an entrywise 1e-9.  The verdict is narrow:
+      * only q_xx entries (and q0_xx when the defect is 0, where q0_xx = q_xx) can be excused - a miss anywhere else
+        (defect, q_bb, q0_xx of a singular system) stays a disagreement;
+      * for EVERY missed entry rounding must be able to explain the miss: tol = min(eps*kappa, 1e-7) * (1 + max|Q|) has to
+        exceed what the comparator asked there, 1e-9 (1 + |Q_ij|) (a well-conditioned or evenly scaled matrix never
+        qualifies);
+      * BOTH whole matrices (all n^2 entries, not only the missed ones) must lie within tol of the exact Q.
+    (thorough run 3: 32 x 24 'parts' problem, defect 4, subset of 6, envelope: kappa = 9.2e5, max|Q| = 390, entry
+    Q(1,23) = -0.226: implementation +6.8e-10, model -9.6e-10 from the exact value, worst entries 1.4e-9 / 1.9e-9 =
+    4e-12 / 5e-12 of max|Q|; tol = 7.9e-8.)  returns (accepted, explanation)"""
+    n, Q = p["n"], ref["Q"]
+    blocks = {"qxx": 3}
+    if entry == "solver" and p["defect"] == 0:
+        blocks["q0xx"] = 3 + n * n
+    where = {}
+    for k in miss:
+        b = next((nm for nm, off in blocks.items() if off <= k < off + n * n), None)
+        if b is None:
+            return False, f"answer #{k} (not a q_xx entry) differs"
+        where[k] = (b, (k - blocks[b]) // n, (k - blocks[b]) % n)
+    kappa = float(max(sum(abs(v) for v in r) for r in ref["N"]) * max(sum(abs(v) for v in r) for r in Q))
+    qmax = float(max(abs(v) for r in Q for v in r))
+    tol = min(1e-7, 2.2e-16 * kappa) * (1.0 + qmax)
+    devs = {}
+    for side, out in (("implementation", out_impl), ("model", out_model)):
+        for b in sorted({w[0] for w in where.values()}):
+            M = mat(out, blocks[b], n, n)
+            if M is None:
+                return False, f"{b} not answered by the {side}"
+            devs[side] = max(devs.get(side, 0.0), max(abs(float(F(M[i][j]) - Q[i][j])) for i in range(n) for j in range(n)))
+    b, i, j = where[miss[0]]
+    why = (f"{len(miss)} entries, first {b}({i + 1},{j + 1}) = {float(Q[i][j]):.6g} exactly; against the exact Q (all entries): "
+           f"implementation {devs['implementation']:.3g}, model {devs['model']:.3g}, tolerance {tol:.3g} = eps*kappa*(1+max|Q|), "
+           f"kappa = {kappa:.3g}, max|Q| = {qmax:.3g}")
+    if corr is not None:
+        corr.maxstat("q_judged_max_kappa", kappa)
+        corr.maxstat("q_judged_max_dev_impl_over_maxQ", devs["implementation"] / (1.0 + qmax))
+        corr.maxstat("q_judged_max_dev_model_over_maxQ", devs["model"] / (1.0 + qmax))
+    for k, (b, i, j) in where.items():
+        if tol < 1e-9 * (1.0 + abs(float(Q[i][j]))):
+            return False, "rounding does not explain the difference (matrix well conditioned / evenly scaled); " + why
+    return (devs["implementation"] <= tol and devs["model"] <= tol), why
+
+
 def correspond(ctx, corr):
     cases, meta = make_cases(ctx, ctx.size(30, 600))
     hist = add_histories(ctx.rng, cases, meta)      # the model gets the fresh case, the implementation the history
+    corr.count("corpus_cases", len(load_corpus(ctx, cases, meta, hist)))
     with concurrent.futures.ThreadPoolExecutor(max_workers=2) as ex:
         fm = ex.submit(g.run_cases_par, ctx.driver("drv_ls"), cases, 3)
         impl, crashes, warm = run_impl(ctx, cases, hist, 4)
@@ -525,21 +593,34 @@ def correspond(ctx, corr):
             if wbad:
                 corr.fail("cofactor depends on the object's history: " + "; ".join(wbad[:3]),
                           {"stream": stream, "ops": c, "subset": S}, site, " | ".join(w[1] for w in warm[i]))
-        nm, pairs = False, 0
-        for a, b in zip(impl[i], model[i]):
+        nm, pairs, miss = False, 0, []
+        for k, (a, b) in enumerate(zip(impl[i], model[i])):
             if b == "not-modelled":
                 nm = True
                 continue
             pairs += 1
             if not lines_equal(a, b, rtol=1e-9, atol=1e-9):
-                corr.disagree(stream, c, impl[i], model[i], site)
-                break
+                miss.append(k)
+                continue
             va, vb = val(a), val(b)
             if va is not None and vb is not None:
                 corr.maxstat("max_dev_model_impl", abs(va - vb))
-        else:
-            if len(impl[i]) != len(model[i]):
-                corr.disagree(stream, c, impl[i], model[i], "length")
+        if miss and ok and len(impl[i]) == len(model[i]) and corr.stats.get("q_judged_by_exact_reference", 0) < 60:
+            # entries of q_xx miss the ENTRYWISE 1e-9 comparison: model or implementation wrong, or rounding at an entry
+            # that is small against the matrix?  decided against the EXACT Q (see exact_q_verdict); never silently
+            corr.count("q_judged_by_exact_reference")
+            key = (id(p), tuple(S))
+            if key not in refs:
+                refs[key] = g.reference(p, S)
+            okq, why = exact_q_verdict(p, entry, impl[i], model[i], miss, refs[key], corr)
+            if okq:
+                corr.count("q_rounding_at_entries_small_against_the_matrix")
+            else:
+                corr.disagree(stream, c, impl[i], model[i], site + ": " + why)
+        elif miss:
+            corr.disagree(stream, c, impl[i], model[i], site)
+        elif len(impl[i]) != len(model[i]):
+            corr.disagree(stream, c, impl[i], model[i], "length")
         corr.count("not_modelled" if nm else "modelled")
         corr.count("answers_compared", pairs)
         if not ok:
@@ -570,6 +651,9 @@ def correspond(ctx, corr):
     for k, need in CASE_MIN.items():
         if corr.stats.get(k, 0) < need:
             corr.inconclusive.append(f"case mix: {k} = {corr.stats.get(k, 0)} < {need}")
+    judged = corr.stats.get("q_judged_by_exact_reference", 0)
+    if judged > max(12, len(cases) // 1000):
+        corr.inconclusive.append(f"{judged} cases needed the exact reference to compare q_xx (more than 0.1% of the cases)")
     # histories: a fixed share of the cases, every algorithm at both entries, each kind of change
     nres = sum(1 for x in meta if x[4])
     if corr.stats.get("history_cases", 0) < nres // HIST_EVERY - 2:
